@@ -2,7 +2,7 @@
    bool, option, unit, list, prod, sumbool, sumor are mapped to OCaml's; Z, positive, nat, ascii stay inductive. *)
 Require Extraction.
 Require Import ExtrOcamlBasic.
-From CF Require Import ListAux Defs Burn Core Cert Machines Config.
+From CF Require Import ListAux Defs Burn Core Cert Machines Config GreedyModel.
 Extraction Language OCaml.
 Extraction "model.ml"
   nv mult Vg wfb valg nedges_g genus_g degD graph_eqb div_eqb connected_b
@@ -17,4 +17,5 @@ Extraction "model.ml"
   dinit dstep cstep is_effective_b d_add d_sub d_eqb chip_at sstep
   lap_entry lap_matrix lap_reduced lap_apply scripted_moves
   is_legal_set_firing legal_b superstable_enum out_degree_S cfg_le cfg_eq cfg_lt is_parking_n is_parking generate_parking parking_count det count_superstables
+  greedy greedy_budget
   oinit oconstruct set_orientation check_fullness o_divisor o_reverse o_get dir_at full_b.
